@@ -295,6 +295,7 @@ class Case final : public sim::CaseBase {
         } break;
         case kWaitTouch:
           yaclib::Wait(c);
+          sim::ReuseDeadFrames();
           if (!c.Ready()) {
             sim::Fail("WAIT_NOT_READY", "Wait returned but the shared future is not Ready");
           }
